@@ -161,7 +161,7 @@ theorem deStep_line {α} (w h c : Nat) (unitsOf : PassConst → Bytes → Option
 theorem run_pass_rows {α} (w h c : Nat) (unitsOf : PassConst → Bytes → Option (List α)) (R : List (List α))
     (p : Nat) (pc : PassConst) (lineOf : Nat → Bytes) (Uof : Nat → List α)
     (hh : R.length = h) (hpc : interlacedConstants p = some pc)
-    (hunits : ∀ y, unitsOf pc (lineOf y) = some (Uof y))
+    (hunits : ∀ y, y < h → unitsOf pc (lineOf y) = some (Uof y))
     (hU : ∀ y, y < h → ∀ i, i < (Uof y).length →
       ∃ v, cellL R y (idxOf c pc.xShift pc.xStep i) = some v ∧ (Uof y)[i]? = some v) :
     ∀ (n y0 : Nat) (A : Array (Array α)) (S : Nat → Nat → Prop), Inv R A S →
@@ -176,7 +176,7 @@ theorem run_pass_rows {α} (w h c : Nat) (unitsOf : PassConst → Bytes → Opti
     intro y0 A S hinv hlt hge
     simp only [Nat.zero_mul, Nat.add_zero] at hlt hge ⊢
     obtain ⟨A', hinv', hstep⟩ := deStep_line w h c unitsOf R A S p y0 pc (lineOf y0) (Uof y0) hinv hpc
-      (hunits y0) (by omega) (hU y0 hlt)
+      (hunits y0 hlt) (by omega) (hU y0 hlt)
     refine ⟨A', ?_, ?_⟩
     · refine ⟨hinv'.size, hinv'.rows, ?_⟩
       intro y' j hS
@@ -194,7 +194,7 @@ theorem run_pass_rows {α} (w h c : Nat) (unitsOf : PassConst → Bytes → Opti
     have e : (n + 1) * pc.yStep = n * pc.yStep + pc.yStep := Nat.succ_mul n pc.yStep
     rw [e] at hlt hge
     obtain ⟨A1, hinv1, hstep⟩ := deStep_line w h c unitsOf R A S p y0 pc (lineOf y0) (Uof y0) hinv hpc
-      (hunits y0) (by omega) (hU y0 (by omega))
+      (hunits y0 (by omega)) (by omega) (hU y0 (by omega))
     have hadv : advance w h p y0 pc A1 = some ⟨A1, p, y0 + pc.yStep, false⟩ := by
       unfold advance
       have : ¬ (y0 + pc.yStep ≥ h) := by omega
